@@ -37,7 +37,13 @@ Panic ==
      IN /\ frames' = kept
         /\ segs' = IF NoPop THEN segs ELSE segs - (Grown(frames) - Grown(kept))
   /\ hist' = Append(hist, [a |-> "panic"])
-Next == (\E g, c \in BOOLEAN : Enter(g, c)) \/ Ret \/ Panic
+\* a recursion that asks for growth at every level and needs several fresh segments, made wherever the program
+\* stands (also inside a grown segment after an inner one has returned): all its calls return, so the
+\* bookkeeping is as before - but it only survives if the growth decisions taken on the way are sound,
+\* i.e. if the records that remain are those of the segments still in use
+Deep ==
+  /\ Go /\ hist' = Append(hist, [a |-> "deep"]) /\ UNCHANGED <<frames, segs>>
+Next == (\E g, c \in BOOLEAN : Enter(g, c)) \/ Ret \/ Panic \/ Deep
 Spec == Init /\ [][Next]_vars
 
 \* C23: the recorded segments are exactly those of the calls in progress, in particular
